@@ -1,6 +1,7 @@
 package props
 
 import (
+	"bytes"
 	"fmt"
 	"io"
 	"math/rand"
@@ -530,40 +531,83 @@ func c06Run(c *vk.Ctx) {
 		c.Violation("C06/target-contacted-for-unauthenticated-input", u[:min(len(u), 5)])
 		return
 	}
-	// History: a client address with hundreds of failed handshakes behind it (a scanner, a NAT
-	// full of misconfigured clients) is absorbed like any other.
-	for ri, rg := range []*c06Rig{rigs[0], rigs[2]} {
+	// History and company: a client address with hundreds of failed handshakes behind it (a scanner,
+	// a NAT full of misconfigured clients) is absorbed like any other - also while legitimate
+	// clients authenticate from that same address and from another one, with the same keys
+	// (every such authentication changes which key was last used from where).
+	for ri, rg := range []*c06Rig{rigs[0], rigs[2], rigs[3]} {
 		ip := net.IPv4(198, 51, 100, byte(60+ri)).To4()
+		other := net.IPv4(198, 51, 100, byte(70+ri)).To4()
+		stopLegit := make(chan struct{})
+		var lw sync.WaitGroup
+		var legitOK atomic.Int64
+		for w := 0; w < 4; w++ {
+			lw.Add(1)
+			lr := c.SubRng("c06legit", ri*8+w)
+			go func(w int) {
+				defer lw.Done()
+				for i := 0; ; i++ {
+					select {
+					case <-stopLegit:
+						return
+					default:
+					}
+					k := rg.keys[lr.Intn(min(len(rg.keys), 6))]
+					caseN := nextID(c.Batch)
+					tip := caseIP4(caseN & 0xffffff)
+					hub.On(tip.String(), echoTCP)
+					src := ip
+					if (i+w)%2 == 1 {
+						src = other
+					}
+					payload := putU64(caseN)
+					reply, _, err := tcpExchange(rg.rig.Addr4(), src, k, randBytes(lr, k.Codec().C.SaltSize), tip, hub.Port, payload, c06B)
+					hub.Off(tip.String())
+					if err == nil && bytes.Equal(reply, payload) {
+						legitOK.Add(1)
+					}
+				}
+			}(w)
+		}
 		nFail := c.N(300, 700)
 		var fw sync.WaitGroup
 		var failedN atomic.Int64
+		var bad atomic.Bool
 		for w := 0; w < 16; w++ {
 			fw.Add(1)
 			fr := c.SubRng("c06hist", ri*16+w)
 			go func(w int) {
 				defer fw.Done()
-				for i := w; i < nFail; i += 16 {
-					cl, err := DialSS(rg.rig.Addr4(), ip, rg.keys[0], nil)
-					if err != nil {
-						continue
+				for i := w; i < nFail && !bad.Load(); i += 16 {
+					l := fr.Intn(130)
+					pc := probeCase{ID: nextID(c.Batch), Class: "many-failures-from-one-address-amid-legitimate-clients", Cipher: rg.keys[0].Cipher, Len: l, FIN: true, Rig: rg.name, SrcIP: ip.String()}
+					if !c06Unauth(c, fr, rg, hub, pc, randBytes(fr, l)) {
+						bad.Store(true)
+						return
 					}
-					cl.WriteRaw(randBytes(fr, fr.Intn(130)))
-					cl.Conn.CloseWrite()
-					watchClose(cl, time.Now().Add(c06B))
-					cl.Conn.Close()
 					failedN.Add(1)
 				}
 			}(w)
 		}
 		fw.Wait()
+		if bad.Load() {
+			close(stopLegit)
+			lw.Wait()
+			return
+		}
 		c.Max("max_failed_handshakes_from_one_address_before_a_probe", failedN.Load())
 		for _, l := range []int{60, 0, 300} {
 			pc := probeCase{ID: nextID(c.Batch), Class: "after-many-failures-from-this-address", Cipher: rg.keys[0].Cipher, Len: l, Rig: rg.name, SrcIP: ip.String()}
 			if !c06Unauth(c, r, rg, hub, pc, randBytes(r, l)) {
+				close(stopLegit)
+				lw.Wait()
 				return
 			}
 			c.Count("probes_after_many_failures_absorbed", 1)
 		}
+		close(stopLegit)
+		lw.Wait()
+		c.Count("legitimate_exchanges_alongside_probes", legitOK.Load())
 	}
 	// Probes that are being absorbed when their listener shuts down are still held until the deadline.
 	rg := rigs[1]
@@ -611,6 +655,7 @@ func init() {
 			c.Require("probes_held_across_listener_shutdown")
 			c.Require("deadline_comparisons")
 			c.Require("probes_after_many_failures_absorbed")
+			c.Require("legitimate_exchanges_alongside_probes")
 			c06Run(c)
 		},
 	})
